@@ -15,6 +15,8 @@ MANIFEST_ENTRY = {
     "note": "Termination of the whole download (ShareFinder DYHB loop, Share state machine with its own timers, reactor fairness) is liveness over an unbounded event system and stays outside contracts; the bounded exploration is a stand-in labelled bounded and never counted as proved. Found and fixed with it: D22.",
     "technique": "contract-based deductive verification (pyvc VCs + z3, Deferred-chain model) of DownloadNode; SegmentFetcher by bounded exhaustive exploration of event schedules against a run-time contract",
 }
+MANIFEST_ENTRY["text"] += " Bounded end-to-end stand-in (run-time contract, never counted as proved): contracts/immutable_grid.py encodes seeded files with the real Encoder, serves the shares from in-memory servers with per-share faults (missing, bit-flipped, truncated, header-truncated, another file's, another encoding's, dead or dying server, slow server) and checks every ImmutableFileNode.read (whole, ranged, concurrent, paused, next to a cancelled one, after failed reads) against the plaintext."
+MANIFEST_ENTRY["technique"] += "; plus bounded end-to-end run-time scenario contracts on an in-process grid of the real components (stand-in, labelled bounded)"
 EXPLANATION = "Node-level hand-over contracts plus a schedule-exhaustive run-time contract of the fetcher."
 TRUSTED = ["foolscap eventually() runs queued calls in order", "Deferred-chain model"]
 ASSUMPTIONS = ["every announced share eventually answers its request (COMPLETE, CORRUPT or DEAD)"]
